@@ -14,7 +14,9 @@
 """
 from __future__ import annotations
 import copy
+import hashlib
 import json
+import os
 import pickle
 from .. import common, impl, tlc, tlcx, vocab
 
@@ -331,13 +333,19 @@ def run_behaviour(ck, cls, f0, steps, check_from=0, origin="graph"):
         except Mismatch as m:
             if i >= check_from:
                 sig = signature(cls, e["fpre"], pre_items, e["op"], m.aspect)
-                ck.violation(sig, "%s on %s(%s): %s" % (src(cls, e), CLASSES[cls].__name__, e["fpre"], m.detail),
-                             {"cls": cls, "f0": f0, "steps": steps[: i + 1], "origin": origin,
-                              "python": reproduction(cls, f0, steps[: i + 1]), "expected": {"ret": e["ret"], "items": e["items"]}})
+                case = {"cls": cls, "f0": f0, "steps": steps[: i + 1], "origin": origin,
+                        "python": reproduction(cls, f0, steps[: i + 1]), "expected": {"ret": e["ret"], "items": e["items"]}}
+                if origin.startswith("walk") and os.path.exists(replay_path(sig)):
+                    case = None          # keep the (shorter) reproduction a graph run wrote for the same signature
+                ck.violation(sig, "%s on %s(%s): %s" % (src(cls, e), CLASSES[cls].__name__, e["fpre"], m.detail), case)
             return False
         B.prune({j for j, _ in e["post"]} if "post" in e else live_ids(e))
         pre_items = e["items"]
     return True
+
+
+def replay_path(sig):
+    return os.path.join(common.REPLAYS, "C17", hashlib.sha1(sig.encode()).hexdigest()[:12] + ".json")
 
 
 def live_ids(e):
@@ -440,7 +448,7 @@ def plan(tier, seed):
                                                                setvals=("i1", "list", "ldict"), factories=(f,))))
             jobs.append(("graph", "ci", "4keys-" + f, graph_job("c17_g_ci_4k_%s" % f, cls="ci", steps=3, pairs=1, setvals=("i1", "list"),
                                                                 keys=KEYS_CI | {"classes", "Classes"}, factories=(f,))))
-        jobs.append(("graph", "dod", "h4p2", graph_job("c17_g_dod", cls="dod", steps=4, pairs=2, setvals=("i1", "list", "ldict"))))
+        jobs.append(("graph", "dod", "h4p1", graph_job("c17_g_dod", cls="dod", steps=4, pairs=1, setvals=("i1", "list", "ldict"))))
         nw, nwd = 1000, 300
     nsplit = 2 if tier == "quick" else 6
     for i in range(nsplit):
@@ -509,12 +517,16 @@ def run(tier):
         for k in cov:
             cov[k] += res["cov"][k]
         for s, v in res["violations"].items():
-            ck.violations.setdefault(s, v)
+            if s not in ck.violations or (ck.violations[s][1] is None and v[1] is not None):
+                ck.violations[s] = v
         ck.known_hits.update(res["known"])
         ck.evaluations += res["n"]
         ck.distinct |= res["distinct"]
         for x in res["samples"][:1]:
             ck.sample(x, limit=6)
+    for s, (w, pth) in list(ck.violations.items()):
+        if pth is None and os.path.exists(replay_path(s)):
+            ck.violations[s] = (w, replay_path(s))
     nonstring_keys(ck)
     if cov["prefix_not_followed"] and not ck.violations and not ck.known_hits:
         raise common.MachineryFailure("a path to a pre-state could not be followed although every transition agreed")
